@@ -42,7 +42,7 @@ def strategy_case(draw):
     if op == "write_read":
         c["ext"] = draw(st.sampled_from([".mrc", ".rec", ".em"]))
         c["transpose"] = draw(st.sampled_from([True, True, False]))
-        cast = {"float32": [None, None, "int16i"], "float64": [None, "float32"], "int16": [None, "float32"],
+        cast = {"float32": [None, None, "int16i", "float64"], "float64": [None, "float32", "float64"], "int16": [None, "float32"],
                 "int8": [None, "int16", "float32"]}[dtype]
         c["data_type"] = draw(st.sampled_from(cast))
         c["read_transpose"] = c["transpose"]
@@ -156,7 +156,7 @@ def run(case):
         ext = case["ext"]
         out.label(f"ext:{ext}", "transpose" if case["transpose"] else "no_transpose")
         path = "vol" + ext
-        dtarg = {None: None, "float32": np.float32, "int16": np.int16, "int16i": np.int16}[case["data_type"]]
+        dtarg = {None: None, "float32": np.float32, "int16": np.int16, "int16i": np.int16, "float64": np.float64}[case["data_type"]]
         src = a
         if case["data_type"] == "int16i":
             src = np.clip(np.round(a), -30000, 30000).astype(np.float32)
@@ -170,7 +170,12 @@ def run(case):
         keep = src.copy()
         kwargs = {"transpose": case["transpose"], "overwrite": overwrite}
         if dtarg is not None:
-            kwargs["data_type"] = dtarg
+            # every spelling numpy accepts for the type: the scalar type, a dtype object, its name
+            spell = case["seed"] % 3
+            kwargs["data_type"] = [dtarg, np.dtype(dtarg), np.dtype(dtarg).name][spell]
+            if dtarg is np.float64 and spell == 1:
+                kwargs["data_type"] = float  # the builtin is the most common way to ask for double precision
+            out.label(f"data_type_spelling:{['type', 'dtype', 'name'][spell]}")
         if case["preexisting"] == "no_overwrite":
             try:
                 cryomap.write(src, path, **kwargs)
@@ -249,9 +254,20 @@ def run(case):
                     out.check(open(dst, "rb").read() == pre, "convert:target_modified_despite_overwrite_false", op)
             return out
         src_bytes = open(src, "rb").read()
+        sibling = None
+        if case["explicit_name"] and not case["preexisting"] and case["seed"] % 2 == 0:
+            # the default-named sibling of the source exists (left by an earlier conversion); the requested, different
+            # target does not: nothing is in the way, not even with overwrite=False, and the sibling is none of this call's business
+            sibling = stem + dst_ext
+            (oracle.em_write if dst_ext == ".em" else oracle.mrc_write)(sibling, np.ones((2, 2, 3), np.float32))
+            sib_bytes = open(sibling, "rb").read()
+            kw["overwrite"] = False
+            out.label("free_target_next_to_default_named_sibling")
         ok, _ = call(out, op, lambda: fn(src, **kw))
         if not ok:
             return out
+        if sibling is not None:
+            out.check(os.path.isfile(sibling) and open(sibling, "rb").read() == sib_bytes, "convert:unrelated_sibling_file_touched", sibling)
         if not out.check(os.path.isfile(dst), "convert:output_missing", dst):
             return out
         out.check(open(src, "rb").read() == src_bytes, "convert:input_file_modified", "")
